@@ -62,8 +62,30 @@ def apply_mutant(d, m):
     open(p, "w").write(s)
     return True, ""
 
+def run_demo(d, m):
+    """demo must pass on the clean tree and fail with the change"""
+    repo = f"{d}/repo"
+    feat = f"--features {m['demo_features']}" if m.get("demo_features") else ""
+    out = {}
+    for label in ("without_change", "with_change"):
+        sh("git checkout -- . && git clean -fdq -e Cargo.lock", cwd=repo)
+        if label == "with_change":
+            ok, o = apply_mutant(d, m)
+            if not ok:
+                return {"error": o}
+        shutil.copy(m["demo"], f"{repo}/tests/seeded_demo.rs")
+        rc, o = sh(f"cargo test --offline {feat} --test seeded_demo 2>&1 | grep -E '^test result|^error|^test .* (ok|FAILED)' | tail -12", cwd=repo, env=lane_env(d))
+        passed = sum(int(x) for x in re.findall(r"(\d+) passed", o))
+        failed = sum(int(x) for x in re.findall(r"(\d+) failed", o))
+        out[label] = {"passed": passed, "failed": failed, "tail": o[-300:]}
+        os.remove(f"{repo}/tests/seeded_demo.rs")
+    out["confirmed"] = out["without_change"]["failed"] == 0 and out["without_change"]["passed"] > 0 and out["with_change"]["failed"] > 0
+    return out
+
 def run_one(d, m, run_tests, props, tier="quick"):
     res = {"id": m["id"], "note": m.get("note", ""), "targets": props}
+    if m.get("demo"):
+        res["demo"] = run_demo(d, m)
     ok, out = apply_mutant(d, m)
     if not ok:
         res["status"] = "apply-failed: " + out[:300]
@@ -71,12 +93,12 @@ def run_one(d, m, run_tests, props, tier="quick"):
     env = lane_env(d)
     if run_tests:
         t0 = time.time()
-        rc, out = sh("cargo test --workspace --no-fail-fast --offline 2>&1 | grep -E '^test result|^error|FAILED|panicked' | head -20", cwd=f"{d}/repo", env=env)
+        rc, out = sh("cargo test --workspace --no-fail-fast --offline 2>&1 | grep -E '^test result|^error(\\[|:)|FAILED|panicked' | tail -30", cwd=f"{d}/repo", env=env)
         passed = sum(int(x) for x in re.findall(r"(\d+) passed", out))
         failed = sum(int(x) for x in re.findall(r"(\d+) failed", out))
         res["tests"] = {"passed": passed, "failed": failed, "compiles": "error" not in out or passed > 0, "s": round(time.time() - t0)}
         if passed < 109 or failed > 0:
-            res["status"] = "killed-by-existing-tests" if passed > 0 else "does-not-compile"
+            res["status"] = "killed-by-existing-tests" if (passed > 0 or "panicked" in out or "FAILED" in out) else "does-not-compile"
             res["tests"]["out"] = out[-400:]
             return res
     t0 = time.time()
@@ -109,11 +131,14 @@ def main():
     ap.add_argument("--all-checks", action="store_true")
     ap.add_argument("--tier", default="quick")
     ap.add_argument("--patch")
+    ap.add_argument("--demo")
+    ap.add_argument("--demo-features", default="")
     ap.add_argument("--props", default="")
     ap.add_argument("--out", default=f"{VERIF}/mutants/results.json")
+    ap.add_argument("--base", type=int, default=0, help="first lane number (use distinct bases for concurrent invocations)")
     a = ap.parse_args()
     if a.patch:
-        muts = [{"id": os.path.basename(os.path.dirname(os.path.abspath(a.patch))) or "patch", "patch": os.path.abspath(a.patch), "props": a.props.split(",") if a.props else ALL}]
+        muts = [{"id": os.path.basename(os.path.dirname(os.path.abspath(a.patch))) or "patch", "patch": os.path.abspath(a.patch), "props": a.props.split(",") if a.props else ALL, "demo": os.path.abspath(a.demo) if a.demo else None, "demo_features": a.demo_features}]
     else:
         muts = json.load(open(f"{VERIF}/tools/mutants.json"))
         if a.only:
@@ -131,11 +156,11 @@ def main():
                 props = ALL if a.all_checks else m.get("props", ALL)
                 r = run_one(d, m, a.tests, props, a.tier)
                 results.append(r)
-                print(json.dumps({k: r.get(k) for k in ("id", "status", "caught_by", "tests")}), flush=True)
+                print(json.dumps({k: r.get(k) for k in ("id", "status", "caught_by", "tests", "demo")}), flush=True)
         finally:
             lane_teardown(n)
     with ThreadPoolExecutor(lanes) as ex:
-        list(ex.map(worker, range(lanes)))
+        list(ex.map(worker, range(a.base, a.base + lanes)))
     results.sort(key=lambda r: r["id"])
     old = []
     if os.path.exists(a.out) and (a.only or a.patch):
